@@ -117,6 +117,7 @@ func init() {
 		r.ExploreSpecs(cl)
 		r.ExploreSpecs(tr)
 		r.ExploreSpecs(collSpecs(r, or, []string{"t", "s60", "limM"}))
+		r.ExploreSpecs(collMetaSpecs(r, or))
 		r.ExploreSpecs(nestedFor(r, or))
 		sweepSlabSizes(r)
 	}})
